@@ -299,8 +299,10 @@ def _check(engine, prop, tier, seed, jobs, args, t0):
         'states': set(), 'digests': [], 'violations': [], 'samples': [], 'errors': [],
     }
     truncated = False
+    stalled = False
     ctx = multiprocessing.get_context('fork')
-    with concurrent.futures.ProcessPoolExecutor(max_workers=jobs, mp_context=ctx) as ex:
+    ex = concurrent.futures.ProcessPoolExecutor(max_workers=jobs, mp_context=ctx)
+    try:
         pending = collections.deque()
         it = iter(chunks)
         try:
@@ -322,6 +324,18 @@ def _check(engine, prop, tier, seed, jobs, args, t0):
                 agg['errors'].extend(out['errors'])
                 if len(agg['samples']) < 3:
                     agg['samples'].extend(out['samples'])
+                if any(v[2]['oracle'] in ('stall', 'hang') and match_known(known, v[2]) is None
+                       for v in agg['violations']):
+                    # a run that does not terminate: every other worker is likely to meet the same input and
+                    # cannot be interrupted while it is inside C code -- stop here with what we have
+                    truncated = True
+                    stalled = True
+                    for proc in list(getattr(ex, '_processes', {}).values()):
+                        try:
+                            proc.kill()
+                        except Exception:
+                            pass
+                    break
                 if time.time() - t0 > wall_cap:
                     truncated = True
                 elif len([v for v in agg['violations']
@@ -332,6 +346,8 @@ def _check(engine, prop, tier, seed, jobs, args, t0):
                     if c is not None:
                         pending.append(ex.submit(_work, c))
         except concurrent.futures.process.BrokenProcessPool:
+            if stalled:
+                raise
             hung = _triage_dead_worker(engine, prop, tier, seed, inflight_dir, hard_s)
             if not hung:
                 raise HarnessError('a worker process died (hang watchdog or crash) and no in-flight '
@@ -343,6 +359,11 @@ def _check(engine, prop, tier, seed, jobs, args, t0):
             truncated = True
         except concurrent.futures.TimeoutError:
             raise HarnessError('a worker did not return in time')
+    finally:
+        if stalled:
+            ex.shutdown(wait=False, cancel_futures=True)
+        else:
+            ex.shutdown(wait=True, cancel_futures=True)
 
     if agg['errors']:
         idx, tb = agg['errors'][0]
@@ -389,7 +410,9 @@ def _check(engine, prop, tier, seed, jobs, args, t0):
         print('candidate violation: run=%d oracle=%s step=%s' % (idx, oracle, v.get('step')))
         print('  detail: %s' % v.get('detail'))
         sys.stdout.flush()
-        small, v2, tests = simshrink.minimise(engine, case, v, budget_s=plan.get('shrink_s', 90))
+        # every execution of a stalling case costs its whole wall budget: only cut the tail
+        shrink_s = 1 if oracle in ('stall', 'hang') else plan.get('shrink_s', 90)
+        small, v2, tests = simshrink.minimise(engine, case, v, budget_s=shrink_s)
         path = write_replay(prop, engine, small, v2, 's%d-r%d-%s' % (seed, idx, _slug(oracle)))
         ok, out = confirm_replay(path, v2['oracle'])
         if ok:
